@@ -50,6 +50,7 @@ class PG:
         self.n = 0
         self.lines = []
         self.ind = 1
+        self.watch = []          # values that must be returned (results of the scf.if pairs)
 
     def new(self):
         self.n += 1
@@ -151,6 +152,8 @@ class PG:
             v = self.new()
             self.emit(f"{v} = func.call @ext({a}) : ({T}) -> {T}")
             pools[T].append(v)
+        elif r < 0.855 and depth > 0 and self.T != "i1":
+            self.if_pair(pools)
         elif r < 0.91 and depth > 0:
             self.scf_if(pools, depth)
         elif r < 0.97 and depth > 0:
@@ -161,6 +164,34 @@ class PG:
     def body(self, pools, depth, n):
         for _ in range(n):
             self.stmt(pools, depth)
+
+    def if_pair(self, pools):
+        """two scf.if on the SAME condition whose regions are pure and equal except (sometimes) in one region:
+        cse may merge them only when both regions agree"""
+        rng, T = self.rng, self.T
+        c = "%c" if rng.random() < 0.7 else self.val(pools, "i1")
+        outer = self.val(pools, T, 0.2)
+        ops = ["addi", "subi", "xori", "muli", "ori"]
+        spec = [(rng.choice(int_lits(T)), rng.choice(ops)) for _ in range(2)]      # (constant, op) of then / else
+        variants = [spec, list(spec)]
+        how = rng.choice(["same", "then", "else", "else"])
+        if how != "same":
+            j = 0 if how == "then" else 1
+            k, o = spec[j]
+            variants[1][j] = (k + 1, o) if rng.random() < 0.5 else (k, rng.choice([x for x in ops if x != o]))
+        for sp in variants:
+            res = self.new()
+            self.emit(f"{res} = scf.if {c} -> ({T}) {{")
+            for j, (k, o) in enumerate(sp):
+                kv, rv = self.new(), self.new()
+                self.ind += 1
+                self.emit(f"{kv} = arith.constant {k} : {T}")
+                self.emit(f"{rv} = arith.{o} {outer}, {kv} : {T}")
+                self.emit(f"scf.yield {rv} : {T}")
+                self.ind -= 1
+                self.emit("} else {" if j == 0 else "}")
+            pools[T].append(res)
+            self.watch.append(res)
 
     def scf_if(self, pools, depth):
         rng = self.rng
@@ -233,7 +264,7 @@ def gen_scf(rng):
     def pick(vals, k):
         vals = list(dict.fromkeys(vals))
         return vals if len(vals) <= k else rng.sample(vals, k)
-    ints = pick(pools[T][2:] if T != "i1" else [], 7)
+    ints = list(dict.fromkeys(g.watch[:4] + pick(pools[T][2:] if T != "i1" else [], 5)))
     bools = pick(pools["i1"][1:] if T != "i1" else pools["i1"][3:], 4)
     rets = [(v, T) for v in (ints or ["%a"])] + [(v, "i1") for v in bools] + [(v, F) for v in pick(pools[F][1:], 4)]
     g.emit("func.return " + ", ".join(v for v, _ in rets) + " : " + ", ".join(t for _, t in rets))
@@ -372,6 +403,8 @@ def gen_case(rng):
                            rng.choice(ib) if rng.random() < 0.6 else rng.randrange(M),
                            rng.choice(F_BOUND[F]) if rng.random() < 0.6 else rng.getrandbits(ref.FMT[F][2]),
                            rng.randrange(2)])
+        for i, inp in enumerate(inputs):
+            inp[3] = i % 2           # both values of the i1 argument occur (scf.if / select conditions)
         return {"text": text, "inputs": inputs}
     raise RuntimeError("program generator produced 20 unparsable programs in a row")
 
